@@ -162,6 +162,8 @@ def scenarios(chk, tier, regimes=(4, 4, 4, 6, 0, 7), extra_diffusion=True):
         sc["regime_switch"] = [given, given, 0.0]
         scs.append(sc)
     scs.append(MT.scenario(rng, regime=4, nupd=2, lkind="shared"))
+    # grain counts on block boundaries (independent stream; the scenarios above are unchanged)
+    scs += MT.block_scenarios(np.random.default_rng([chk.seed, 0xB10C]), tier, regimes=(4, 6, 4, 0))
     if tier == "thorough":
         scs.append(MT.scenario(rng, regime=4, n=500, nupd=2))
         scs.append(MT.scenario(rng, regime=4, n=20, nupd=100, strain=3.0))
@@ -190,7 +192,7 @@ def run(chk):
     ]
     chk.cov["rule"] = ("histories = every accepted (phase, fabric) x both dislocation regimes + seeded random scenarios over regimes {4,6,0,7}, "
                        "7 flow families (simple/pure/axisymmetric/general/non-zero trace/time-dependent/position-dependent along a pathline), "
-                       "4 initial texture families, 2..24 grains, 1..4 updates, M* in [0,200], chi in [0,0.9] (20% chi=0), lambda* in [0,10]; "
+                       "4 initial texture families, 2..24 grains + block-boundary grain counts (63..1024 [thorough ..4096]: powers of two and neighbours, multiples of 64/128/256/1000/1024), 1..4 updates, M* in [0,200], chi in [0,0.9] (20% chi=0), lambda* in [0,10]; "
                        "every update is one case (the model must reproduce the stored snapshot from LSODA's last vector) and up to 6 recorded "
                        "eval_rhs calls per update are further cases; non-trivial = the texture changed / the rates are not all zero")
     bad, mon = [], []
